@@ -16,3 +16,172 @@
 )]
 
 pub mod state;
+
+/// Hook `sched_raw` (C03, C01): drive the real pending queue / reservation code of both
+/// scheduler implementations on raw `(scope_hash, rule_id, compact_rule, Footprint)` keys that
+/// the engine API cannot produce (scope hashes reachable through `Engine::apply` are BLAKE3
+/// outputs). Add-only wrappers; no logic of their own beyond plumbing.
+pub mod sched_raw {
+    use crate::engine_impl::{footprints_conflict, EngineBuilder};
+    use crate::footprint::Footprint;
+    use crate::graph::GraphStore;
+    use crate::ident::{CompactRuleId, Hash, NodeId, NodeKey, WarpId};
+    use crate::receipt::{TickReceiptDisposition, TickReceiptEntry};
+    use crate::scheduler::{
+        LegacyScheduler, PendingRewrite, RadixScheduler, RewritePhase, SchedulerKind,
+    };
+    use crate::tick_delta::OpOrigin;
+    use crate::tx::TxId;
+
+    /// One raw candidate. `tag` is an opaque payload identity carried through the queue
+    /// (stored in `scope.local_id`), so last-wins replacement is observable.
+    #[derive(Clone, Debug)]
+    pub struct RawCandidate {
+        pub scope_hash: Hash,
+        pub rule_id: Hash,
+        pub compact_rule: u32,
+        pub footprint: Footprint,
+        pub tag: u64,
+    }
+
+    fn tag_to_scope(tag: u64) -> NodeKey {
+        let mut id = [0u8; 32];
+        id[24..32].copy_from_slice(&tag.to_be_bytes());
+        NodeKey {
+            warp_id: WarpId([0u8; 32]),
+            local_id: NodeId(id),
+        }
+    }
+
+    fn scope_to_tag(k: &NodeKey) -> u64 {
+        let mut b = [0u8; 8];
+        b.copy_from_slice(&k.local_id.0[24..32]);
+        u64::from_be_bytes(b)
+    }
+
+    fn to_pending(c: RawCandidate) -> PendingRewrite {
+        PendingRewrite {
+            rule_id: c.rule_id,
+            compact_rule: CompactRuleId(c.compact_rule),
+            scope_hash: c.scope_hash,
+            scope: tag_to_scope(c.tag),
+            footprint: c.footprint,
+            phase: RewritePhase::Matched,
+            origin: OpOrigin::default(),
+        }
+    }
+
+    fn from_pending(p: PendingRewrite) -> RawCandidate {
+        RawCandidate {
+            scope_hash: p.scope_hash,
+            rule_id: p.rule_id,
+            compact_rule: p.compact_rule.0,
+            tag: scope_to_tag(&p.scope),
+            footprint: p.footprint,
+        }
+    }
+
+    enum Inner {
+        Radix(RadixScheduler),
+        Legacy(LegacyScheduler),
+    }
+
+    /// A real `RadixScheduler` or `LegacyScheduler` plus one transaction id.
+    pub struct RawScheduler {
+        inner: Inner,
+        tx: TxId,
+    }
+
+    impl RawScheduler {
+        pub fn new(kind: SchedulerKind, tx: u64) -> Self {
+            let inner = match kind {
+                SchedulerKind::Radix => Inner::Radix(RadixScheduler::default()),
+                SchedulerKind::Legacy => Inner::Legacy(LegacyScheduler::default()),
+            };
+            Self {
+                inner,
+                tx: TxId::from_raw(tx),
+            }
+        }
+
+        /// `RadixScheduler::enqueue` / `LegacyScheduler::enqueue`.
+        pub fn enqueue(&mut self, c: RawCandidate) {
+            let pr = to_pending(c);
+            match &mut self.inner {
+                Inner::Radix(s) => s.enqueue(self.tx, pr),
+                Inner::Legacy(s) => s.enqueue(self.tx, pr),
+            }
+        }
+
+        /// `drain_for_tx`: the canonical drained order.
+        pub fn drain(&mut self) -> Vec<RawCandidate> {
+            let v = match &mut self.inner {
+                Inner::Radix(s) => s.drain_for_tx(self.tx),
+                Inner::Legacy(s) => s.drain_for_tx(self.tx),
+            };
+            v.into_iter().map(from_pending).collect()
+        }
+
+        /// `reserve` for one candidate against the frontier accumulated so far.
+        pub fn reserve(&mut self, c: &RawCandidate) -> bool {
+            let mut pr = to_pending(c.clone());
+            let ok = match &mut self.inner {
+                Inner::Radix(s) => s.reserve(self.tx, &mut pr),
+                Inner::Legacy(s) => s.reserve(self.tx, &mut pr),
+            };
+            debug_assert_eq!(
+                pr.phase,
+                if ok {
+                    RewritePhase::Reserved
+                } else {
+                    RewritePhase::Aborted
+                }
+            );
+            ok
+        }
+
+        /// Folds `reserve` over `cands` in the given order.
+        pub fn reserve_all(&mut self, cands: &[RawCandidate]) -> Vec<bool> {
+            cands.iter().map(|c| self.reserve(c)).collect()
+        }
+    }
+
+    /// The receipt-side conflict predicate (`engine_impl::footprints_conflict`).
+    pub fn receipt_conflict(a: &Footprint, b: &Footprint) -> bool {
+        footprints_conflict(a, b)
+    }
+
+    /// Runs the real `Engine::reserve_for_receipt` (scheduler `reserve` + blocker attribution +
+    /// `TickReceipt::new`) over an already drained candidate list on a fresh engine of the given
+    /// scheduler kind. Returns per entry `(applied, blocked_by)` plus the receipt entries, or the
+    /// engine error rendered as a string.
+    pub fn reserve_for_receipt(
+        kind: SchedulerKind,
+        drained: Vec<RawCandidate>,
+    ) -> Result<(Vec<(bool, Vec<u32>)>, Vec<TickReceiptEntry>, Vec<u64>), String> {
+        let root = NodeId([0u8; 32]);
+        let mut engine = EngineBuilder::new(GraphStore::default(), root)
+            .scheduler(kind)
+            .build();
+        let tx = engine.begin();
+        let pend: Vec<PendingRewrite> = drained.into_iter().map(to_pending).collect();
+        let out = engine
+            .reserve_for_receipt(tx, pend)
+            .map_err(|e| format!("{e:?}"))?;
+        let receipt = out.receipt;
+        let entries = receipt.entries().to_vec();
+        let rows = entries
+            .iter()
+            .enumerate()
+            .map(|(i, e)| {
+                (
+                    e.disposition == TickReceiptDisposition::Applied,
+                    receipt.blocked_by(i).to_vec(),
+                )
+            })
+            .collect();
+        let reserved_tags = out.reserved.iter().map(|p| scope_to_tag(&p.scope)).collect();
+        engine.abort(tx);
+        Ok((rows, entries, reserved_tags))
+    }
+}
